@@ -26,6 +26,8 @@ its method is HEAD -/
 structure Req where
   id : Nat
   head : Bool := false
+  /-- the request carries `Connection: close` (used by the pipeline-level model at the end of this file only) -/
+  close : Bool := false
   deriving DecidableEq, Repr
 
 /-- what labels a response head: the identity of the request it answers, and whether the client will treat the
@@ -271,5 +273,50 @@ def run (app : Req → AppResp) (y : Sys) (sch : List Who) : Sys := sch.foldl (s
 
 /-- a Patron with `reqs` queued, nothing else yet -/
 def initSys (reqs : List Req) : Sys := { c := { queue := reqs } }
+
+/-! ## `Connection: close` inside a pipeline (pipeline level)
+
+What happens with the requests of one `Patron`, one after the other, when some of them carry `Connection: close`, at
+the level of whole requests (`Patron` has one request outstanding at a time, so the order of the service calls does
+not enter — that independence is proved for pipelines without close requests in the step model above and exercised by
+the correspondence runs for the others):
+
+* `Requestant.checkPersisted`: a request with `Connection: close` is not persistent; `Valet.serviceReps`, once its
+  response has ended and been sent, closes the connection (`closeConnection`);
+* the requests the client has not sent by then are never handled by the server, so never answered (the client's later
+  send on the closed connection is a transport matter: C25);
+* a response the client cannot complete (an application that yields fewer bytes than the Content-Length it
+  announced — outside the property's quantifier, observed only) leaves the client waiting: it sends nothing further.
+-/
+
+/-- everything the server writes for one request: `Responder.service()` called until the response has ended -/
+def serveItems (r : Responder) (tag : Tag) : List Bytes → List Item
+  | [] => (r.serviceOnce tag []).2.2.1
+  | p :: ps =>
+    (r.serviceOnce tag (p :: ps)).2.2.1 ++
+      (if (r.serviceOnce tag (p :: ps)).1.ended then [] else serveItems (r.serviceOnce tag (p :: ps)).1 tag ps)
+
+/-- one request served: the items the server writes for it and whether it then closes the connection -/
+def serveOne (a : AppResp) (q : Req) : List Item × Bool :=
+  (serveItems (({ chunkable := true } : Responder).start a.cl) (q.id, q.head || a.bodyless) a.pieces, q.close)
+
+/-- `Patron.serviceResponse` over everything the server wrote for request `q`: the response delivered, if complete -/
+def clientTake (q : Req) (items : List Item) : Option Delivered :=
+  match feed none items with
+  | .done tag body _ => some ⟨q.id, tag, body⟩
+  | _ => none
+
+/-- the requests of one connection, one after the other: for each request the server handled, what the client
+delivered for it (if anything); `true` = the server has not closed the connection.  The pipeline ends with the first
+request that carries `Connection: close`, or whose response the client cannot complete. -/
+def pipeline (app : Req → AppResp) : List Req → List (Req × Option Delivered) × Bool
+  | [] => ([], true)
+  | q :: rest =>
+    let o := serveOne (app q) q
+    let d := clientTake q o.1
+    if o.2 || d.isNone then ([(q, d)], !o.2)
+    else
+      let t := pipeline app rest
+      ((q, d) :: t.1, t.2)
 
 end Ioflo.KeepAlive
